@@ -38,9 +38,15 @@ pub enum Traffic {
     Http2DataWithoutHeaders,
     /// a complete request, then endless further complete requests on the same connection
     HttpPipelinedRequests,
+    /// an unfinished request head, then the same few sequence numbers over and over
+    /// (retransmission storm / keep-alive probes): every copy is a segment the flow receives
+    HttpRetransmissionStorm,
+    /// an HTTP/2 HEADERS block that raises the HPACK table size, inserts ~19 KiB of literal
+    /// fields and then fails to decode; endless DATA frames follow, each one re-parsing the stream
+    Http2FailingBlockThenData,
 }
 
-pub const ALL: [Traffic; 13] = [
+pub const ALL: [Traffic; 15] = [
     Traffic::HttpHeadNeverCompletes,
     Traffic::HttpPostEndlessBody,
     Traffic::HttpResponseNeverCompletes,
@@ -54,6 +60,8 @@ pub const ALL: [Traffic; 13] = [
     Traffic::TlsSeveralRecordsPerSegment,
     Traffic::Http2DataWithoutHeaders,
     Traffic::HttpPipelinedRequests,
+    Traffic::HttpRetransmissionStorm,
+    Traffic::Http2FailingBlockThenData,
 ];
 
 /// Lazily produces the frames of one long connection.
@@ -113,6 +121,29 @@ impl LongConn {
             }
             Traffic::HttpPipelinedRequests => {
                 s.c_data(b"GET /first HTTP/1.1\r\nHost: example.org\r\nUser-Agent: curl/8.4.0\r\n\r\n");
+            }
+            Traffic::HttpRetransmissionStorm => {
+                s.c_data(b"GET /storm HTTP/1.1\r\nHost: example.org\r\nX-Filler: ");
+            }
+            Traffic::Http2FailingBlockThenData => {
+                let mut p = b"PRI * HTTP/2.0\r\n\r\nSM\r\n\r\n".to_vec();
+                p.extend_from_slice(&[0, 0, 0, 4, 0, 0, 0, 0, 0]);
+                // header block: table size update to 1 MiB, 140 literal fields with incremental
+                // indexing (new name, 100-byte value), then an indexed field with index 0 (invalid)
+                let mut block: Vec<u8> = vec![0x3f, 0xe1, 0xff, 0x3f];
+                for k in 0..140u32 {
+                    block.push(0x40);
+                    let name = format!("x-f{k:03}");
+                    block.push(name.len() as u8);
+                    block.extend_from_slice(name.as_bytes());
+                    block.push(100);
+                    block.extend((0..100).map(|_| b'a' + (r.u8() % 26)));
+                }
+                block.push(0x80);
+                let l = block.len();
+                p.extend_from_slice(&[(l >> 16) as u8, (l >> 8) as u8, l as u8, 1, 0x04, 0, 0, 0, 1]);
+                p.extend_from_slice(&block);
+                s.c_data(&p);
             }
             _ => {}
         }
@@ -195,6 +226,19 @@ impl LongConn {
                 let mut b = format!("GET /r{} HTTP/1.1\r\nHost: example.org\r\nX-Pad: ", self.i).into_bytes();
                 b.extend(filler(&mut self.r, n.saturating_sub(60)));
                 b.extend_from_slice(b"\r\n\r\n");
+                self.s.c_data(&b);
+            }
+            Traffic::HttpRetransmissionStorm => {
+                // three sequence numbers already seen, sent again and again
+                let b = filler(&mut self.r, n);
+                let seq = self.s.c_next.wrapping_add(((self.i % 3) as u32) * n as u32);
+                let f = self.s.seg(true, seq, self.s.s_next, flags::ACK | flags::PSH, vec![], &b);
+                self.s.frames.push(f);
+            }
+            Traffic::Http2FailingBlockThenData => {
+                let k = n.max(20) - 9;
+                let mut b = vec![(k >> 16) as u8, (k >> 8) as u8, k as u8, 0, 0, 0, 0, 0, 1];
+                b.extend(self.r.bytes(k));
                 self.s.c_data(&b);
             }
             Traffic::TimestampedAcks => {
